@@ -40,20 +40,65 @@ Theorem C14_fail_untouched : forall T I D F G M (st : psbt) (i : nat) (m : bool)
 Proof. exact fail_untouched. Qed.
 Print Assumptions C14_fail_untouched.
 
-Theorem C14_fail_reports_try : forall T I D F G M (st : psbt) (i : nat) (m : bool) (st' : psbt) (e : N),
-  step T I D F G M st (FinalizeInp i m) = (st', RInputErr i e) ->
-  exists a, nth_error (p_inputs st) i = Some a /\ is_final a = false /\ T st i (M m) = TErr e.
+(* the reported error: MissingUtxo for this input when get_utxo finds no spent output, else
+   try_input's; [k] is the index the code puts into the error (prevouts blames the first input
+   whose utxo cannot be found) *)
+Theorem C14_fail_reports_try : forall T I D F G M (st : psbt) (i : nat) (m : bool) (st' : psbt) (k : nat) (e : N),
+  step T I D F G M st (FinalizeInp i m) = (st', RInputErr k e) ->
+  exists a, nth_error (p_inputs st) i = Some a /\ is_final a = false /\
+            ((get_utxo a = None /\ k = i /\ e = e_missing_utxo) \/
+             (get_utxo a <> None /\ T st i (M m) = TErr k e)).
 Proof. exact fail_reports_try. Qed.
 Print Assumptions C14_fail_reports_try.
+
+(* ---- the spent output is the one the unsigned transaction references (get_utxo since /repo
+   55036e60): with a non_witness_utxo present it must be the transaction named by the outpoint
+   and supplies the output; a contradicting witness_utxo is ignored; an input for which no
+   spent output can be found (non_witness_utxo of another transaction, vout out of range, no
+   utxo field) is refused with MissingUtxo, untouched, and NEVER becomes final in any history *)
+Theorem C14_bad_utxo_fails : forall T I D F G M (st : psbt) (i : nat) (m : bool) (a : pinput),
+  nth_error (p_inputs st) i = Some a -> is_final a = false -> get_utxo a = None ->
+  step T I D F G M st (FinalizeInp i m) = (st, RInputErr i e_missing_utxo).
+Proof. exact bad_utxo_fails. Qed.
+Print Assumptions C14_bad_utxo_fails.
+
+Theorem C14_bad_utxo_never_final : forall T I D F G M (ops : list op) (st : psbt) (i : nat) (a : pinput),
+  nth_error (p_inputs st) i = Some a -> is_final a = false -> get_utxo a = None ->
+  exists a', nth_error (p_inputs (run T I D F G M ops st)) i = Some a' /\ is_final a' = false /\ get_utxo a' = None.
+Proof. exact bad_utxo_never_final. Qed.
+Print Assumptions C14_bad_utxo_never_final.
+
+Example C14_get_utxo_example :
+  let w := mkTxOut 1%N 7%N in
+  let mk nw wu := mkIn nw wu [] None None None [] None None [] [] [] [] None [] [] [] None None [] [] in
+  get_utxo (mk None (Some w)) = Some w /\
+  get_utxo (mk (Some (mkNw 9%N true (Some (mkTxOut 2%N 7%N)))) (Some w)) = Some (mkTxOut 2%N 7%N) /\
+  get_utxo (mk (Some (mkNw 9%N false (Some w))) (Some w)) = None /\
+  get_utxo (mk (Some (mkNw 9%N true None)) (Some w)) = None /\
+  get_utxo (mk None None) = None.
+Proof. exact get_utxo_example. Qed.
+
+Example C14_bad_utxo_example :
+  let a := mkIn (Some (mkNw 9%N false (Some (mkTxOut 1%N 7%N)))) (Some (mkTxOut 1%N 7%N))
+                [(1%N, 1%N)] None None None [] None None [] [] [] [] None [] [] [] None None [] [] in
+  let st := mkPsbt 1%N 1 [a] in
+  ex_try st 0 false = TOk 5%N 6%N /\
+  ex_step st (FinalizeInp 0 false) = (st, RInputErr 0 e_missing_utxo) /\
+  ex_step st (Finalize false) = (st, RFinErrs [(0, e_missing_utxo)]).
+Proof. exact bad_utxo_example. Qed.
 
 (* finalize_mut / finalize_mall_mut: atomic per input, not per PSBT (as documented:
    "Finalizes all inputs that it can finalize, and returns an error for each input that it
    cannot finalize") *)
-Theorem C14_finalize_mut_failed_untouched : forall T I D F G M (st : psbt) (m : bool) (st' : psbt) es,
-  step T I D F G M st (Finalize m) = (st', RFinErrs es) ->
-  forall i e, In (i, e) es ->
-    nth_error (p_inputs st') i = nth_error (p_inputs st) i /\
-    exists a, nth_error (p_inputs st) i = Some a /\ is_final a = false.
+(* Whatever the call returns, every input is afterwards bit-identical or has been finalized.
+   (Stated per input rather than per entry of the error vector: the indices in the vector are
+   the code's, and `prevouts` blames the first input whose utxo is missing, not the input
+   whose attempt failed.) *)
+Theorem C14_finalize_mut_failed_untouched : forall T I D F G M (st : psbt) (m : bool) (st' : psbt) (r : result),
+  step T I D F G M st (Finalize m) = (st', r) ->
+  forall i a, nth_error (p_inputs st) i = Some a ->
+    exists a', nth_error (p_inputs st') i = Some a' /\
+      (a' = a \/ (is_final a = false /\ get_utxo a <> None /\ exists s w, a' = cleared a s w)).
 Proof. exact finalize_mut_failed_untouched. Qed.
 Print Assumptions C14_finalize_mut_failed_untouched.
 
@@ -129,7 +174,7 @@ Proof. exact order_example. Qed.
 Theorem C14_success_valid : forall T I D F G M (st : psbt) (i : nat) (m : bool) (st' : psbt) (a : pinput),
   step T I D F G M st (FinalizeInp i m) = (st', ROk) ->
   nth_error (p_inputs st) i = Some a -> is_final a = false ->
-  exists s w, T st i (M m) = TOk s w /\
+  exists s w, get_utxo a <> None /\ T st i (M m) = TOk s w /\
     st' = with_inputs st (set_nth i (cleared a s w) (p_inputs st)) /\
     nth_error (p_inputs st') i = Some (cleared a s w) /\
     (forall j, j <> i -> nth_error (p_inputs st') j = nth_error (p_inputs st) j).
@@ -198,7 +243,7 @@ Print Assumptions C14_step_no_panic.
 Example C14_hyps_satisfiable :
   exists T spends,
     try_nonempty T /\ try_stable T /\ try_sound T spends /\
-    (exists st i m s w, T st i m = TOk s w) /\ (exists st i m e, T st i m = TErr e).
+    (exists st i m s w, T st i m = TOk s w) /\ (exists st i m k e, T st i m = TErr k e).
 Proof. exact hyps_satisfiable. Qed.
 
 Example C14_history_example :
@@ -246,5 +291,9 @@ Example C14_update_example :
   let st := mkPsbt 1%N 1 [a] in
   update_input ex_desc st 0 0%N = (with_inputs st [apply_update a (ex_desc 0%N)], ROk) /\
   i_witscript (apply_update a (ex_desc 0%N)) = Some 8%N /\
-  update_input ex_desc (mkPsbt 1%N 1 [blank]) 0 0%N = (mkPsbt 1%N 1 [blank], RUpd u_utxocheck).
+  (* a witness_utxo next to the genuine previous transaction, right script, WRONG amount *)
+  update_input ex_desc (mkPsbt 1%N 1 [mkIn (Some (mkNw 9%N true (Some (mkTxOut 2%N 7%N)))) (Some (mkTxOut 1%N 7%N))
+                                        [] None None None [] None None [] [] [] [] None [] [] [] None None [] []]) 0 0%N
+    = (mkPsbt 1%N 1 [mkIn (Some (mkNw 9%N true (Some (mkTxOut 2%N 7%N)))) (Some (mkTxOut 1%N 7%N))
+                       [] None None None [] None None [] [] [] [] None [] [] [] None None [] []], RUpd u_utxocheck).
 Proof. exact update_example. Qed.
